@@ -51,6 +51,12 @@ func blockHas(b *ssa.BasicBlock, from int, pred func(ssa.Instruction) bool) bool
 // instruction satisfying pred. Paths ending in panic are ignored. Returns a counter-example
 // return when it fails.
 func mustPassToReturn(start *ssa.BasicBlock, idx int, pred func(ssa.Instruction) bool) (bool, ssa.Instruction) {
+	return mustPassToReturnD(start, idx, pred, 0)
+}
+
+// mustPassToReturnD is helper-transparent: a call to a helper that always performs pred counts.
+func mustPassToReturnD(start *ssa.BasicBlock, idx int, pred0 func(ssa.Instruction) bool, depth int) (bool, ssa.Instruction) {
+	pred := deepPred(pred0, depth)
 	if blockHas(start, idx, pred) {
 		return true, nil
 	}
@@ -105,6 +111,9 @@ func nilTest(cond ssa.Value) (ssa.Value, bool, bool) {
 // edgeGuards: b executes only if the If that tests a condition accepted by match took the edge
 // match asks for. match returns (recognised, wantTrueEdge).
 func edgeGuarded(b *ssa.BasicBlock, match func(cond ssa.Value) (bool, bool)) bool {
+	if guardedSem(b, match) {
+		return true
+	}
 	fn := b.Parent()
 	for _, d := range fn.Blocks {
 		if len(d.Instrs) == 0 {
